@@ -328,7 +328,7 @@ def job_search(cfg):
     c = new_context()
     facade.install()
     et = cfg["elem"]
-    mesh = simlib.gmsh_mesh(et, layers=1)
+    mesh = simlib.gmsh_mesh(et, layers=1) if not cfg.get("fine") else simlib.gmsh_mesh(et, size=0.26 if et.startswith("TRI") else 0.4, layers=2)
     if cfg.get("distorted"):
         # general (non-parallelogram) quadrangles / hexahedra with straight edges and planar faces: taper x' = x (1 + 0.3 y) [, y' = y (1 + 0.2 z)];
         # the library inverts the isoparametric map numerically (scipy least_squares, run concretely)
@@ -345,7 +345,7 @@ def job_search(cfg):
     g = mesh.groupElem
     dim, order = g.dim, g.order
     X = mesh.coord
-    key = f"{et} point location through the element search" + ({"R": " (rotated mesh)", "S": " (mirrored mesh)"}.get(cfg.get("motion"), "")) + (" (tapered, non-parallelogram elements)" if cfg.get("distorted") else "")
+    key = f"{et} point location through the element search" + ({"R": " (rotated mesh)", "S": " (mirrored mesh)"}.get(cfg.get("motion"), "")) + (" (tapered, non-parallelogram elements)" if cfg.get("distorted") else "") + (" (finer mesh: candidate sets that are not contiguous ranges)" if cfg.get("fine") else "")
     tol_q = TOL if not cfg.get("distorted") else Fraction(1, 10 ** 8)  # iterative inverse map: its own stopping tolerance
     res.functions |= {"Mesh.Evaluate_dofsValues_at_coordinates", "_GroupElem.Get_Mapping", "_GroupElem._Get_Mapping", "_GroupElem._Get_nearby_elements", "_GroupElem.Get_Elements_Nodes", "_GroupElem._Get_coord_Near"}
     if cfg.get("distorted"):
@@ -370,7 +370,7 @@ def job_search(cfg):
     nv = {"TRI": 3, "QUAD": 4, "TETRA": 4, "HEXA": 8, "PRISM": 6}[et.rstrip("0123456789")]
     conn = g.connect[:, :nv]
     pts, kinds = [], []
-    for e in range(min(g.Ne, 6)):
+    for e in (range(min(g.Ne, 6)) if not cfg.get("fine") else range(0, g.Ne, max(1, g.Ne // 12))):
         V = X[conn[e]]
         pts.append(V[0] * 0.5 + V[1] * 0.25 + V[2] * 0.25 if et.startswith(("TRI", "TETRA")) else V.mean(axis=0))
         kinds.append("interior")
@@ -395,6 +395,13 @@ def job_search(cfg):
     batches = [[i] for i in range(len(pts))] + [sorted(rng.choice(n_struct, size=5, replace=False).tolist()) for _ in range(4)] + [list(range(n_struct))]
     if cfg.get("scatter"):
         batches.append(list(range(n_struct, len(pts))))
+    # batches of one kind (points on nodes / on edges / interior belong to several candidate elements in different numbers): chunks of 5 and 3
+    for kd in ("on a node", "on an edge", "interior"):
+        ids = [i for i in range(n_struct) if kinds[i] == kd]
+        for size in (5, 3):
+            for k0 in range(0, len(ids), size):
+                if len(ids[k0:k0 + size]) > 1:
+                    batches.append(ids[k0:k0 + size])
     mark = c.mark()
 
     def concrete(env, idx):
@@ -468,6 +475,8 @@ def main():
         configs.append({"kind": "search", "elem": et, "motion": "S"})
     for et in ["TETRA4"] + (["TETRA10", "TRI3", "PRISM6"] if tier == "thorough" else []):
         configs.append({"kind": "search", "elem": et, "scatter": 8})
+    for et in ["TRI3", "TETRA4"] + (["TRI6", "QUAD4"] if tier == "thorough" else []):
+        configs.append({"kind": "search", "elem": et, "fine": True})
     for et in ["QUAD4", "HEXA8"] + (["QUAD8", "QUAD9", "HEXA20"] if tier == "thorough" else []):
         configs.append({"kind": "search", "elem": et, "distorted": True})
     # ... and the same after a reflection (signed Jacobians all negative) or a rotation
